@@ -12,7 +12,9 @@ SPEC = {
     "tables": ["PhaseTable", "Conj"],
     "props_module": PROPS_MODULE,
     "required": ["shot_refinement", "refinement_invariant", "step_refinement", "trace_iff_run", "runs_iff_oracle",
-                 "gateSemOK_basis_gates", "shot_refinement_basis_gates", "localWeights_of_field", "counts_invariant",
+                 "gateSemOK_basis_gates", "shot_refinement_basis_gates", "gateSemOK_all_terms", "shot_refinement_unconditional",
+                 "shot_refinement_complex", "complex_is_model", "hyps_complex", "histogram_gf_unconditional",
+                 "measure_all_repeated_target_ors", "localWeights_of_field", "counts_invariant",
                  "collapse_is_project_rescale", "weight_is_born", "collapse_exact", "measure_per_shot", "peek_leaves_state",
                  "peek_all_leaves_state", "reset_per_shot", "reset_leaves_qubit_zero", "stab_peek_all_bell_impossible_value"],
     "drivers": ["drv_c02"],
@@ -36,9 +38,10 @@ SPEC = {
 def run(ctx):
     vlib.standard_flow(ctx, SPEC)
     ctx.assumptions += [
-        "shot_refinement: explicit hypothesis GateSemOK (gate routes = embedded documented unitary, from C04+C05; norm preservation "
-        "`iso` of the embedded documented unitary) — PROVED (gateSemOK_basis_gates) for H, X, S, Sdg on one qubit, hypothesis for other gates",
-        "shot_refinement: D14 excluded (distinct measure_all/peek_all targets, OpOK); LocalWeights (any field) needed for reset_all only",
+        "shot_refinement_unconditional: gates = well-formed terms on valid placements (Route.Placed: arity, distinct in-range qubits, "
+        "n < 64 for composites); GateSemOK is proved for them (gateSemOK_all_terms), no gate hypothesis left",
+        "D14 excluded (distinct measure_all/peek_all targets, OpOK) and witnessed (measure_all_repeated_target_ors); LocalWeights (any "
+        "field) needed for reset_all only",
         "stabilizer backend: no per-shot theorem (it would be relative to the C03 tableau contract); D5 is witnessed on the model "
         "(stab_peek_all_bell_impossible_value); the backend is covered by correspondence (A) and replay (B) only",
         "IEEE-754 rounding outside the model (agreement to 1e-9)",
